@@ -86,29 +86,41 @@ bool RSEquationProcessor::PrecheckFor(const EntityUID key, const EntityUID value
   }
 }
 
-rslang::ExpressionType RSEquationProcessor::Evaluate(const EntityUID uid) const {
+std::optional<rslang::ExpressionType> RSEquationProcessor::Evaluate(const EntityUID uid) const {
   const auto* type = schema.GetParse(uid).TypePtr();
   if (!std::holds_alternative<rslang::Typification>(*type)) {
     return *type;
   } else {
     auto typificationText = std::get<rslang::Typification>(*type).ToString();
+    auto rounds = 0U;
     while (rslang::SubstituteGlobals(typificationText, nameSubstitutes) > 0) {
+      // Note: every round resolves one level of equated names, more rounds than equations means substitution is cyclic
+      if (++rounds > std::size(*equations)) {
+        return std::nullopt;
+      }
+      // Note: substitution can produce an ill-formed typification (e.g. base set equated with a non-set term)
       const auto fixedType = schema.RSLang().Evaluate(typificationText);
-      assert(fixedType.has_value());
-      // NOLINTNEXTLINE(bugprone-unchecked-optional-access)
-      typificationText = std::get<rslang::Typification>(fixedType.value()).B().Base().ToString();
+      if (!fixedType.has_value()) {
+        return std::nullopt;
+      }
+      const auto* fixedTypification = std::get_if<rslang::Typification>(&fixedType.value());
+      if (fixedTypification == nullptr || !fixedTypification->IsCollection()) {
+        return std::nullopt;
+      }
+      typificationText = fixedTypification->B().Base().ToString();
     }
-    // NOLINTNEXTLINE(bugprone-unchecked-optional-access)
-    return std::get<rslang::Typification>(schema.RSLang().Evaluate(typificationText).value());
+    return schema.RSLang().Evaluate(typificationText);
   }
 }
 
 bool RSEquationProcessor::CheckNonBasicEquations() const {
   for (const auto& [key, value] : *equations) {
-    if (!IsBaseSet(schema.GetRS(key).type) && 
-        !IsBaseSet(schema.GetRS(value).type) &&
-        Evaluate(key) != Evaluate(value)) {
-      return false;
+    if (!IsBaseSet(schema.GetRS(key).type) && !IsBaseSet(schema.GetRS(value).type)) {
+      const auto keyType = Evaluate(key);
+      const auto valueType = Evaluate(value);
+      if (!keyType.has_value() || !valueType.has_value() || keyType.value() != valueType.value()) {
+        return false;
+      }
     }
   }
   return true;
